@@ -268,7 +268,7 @@ def main(argv):
     try:
         zv.ensure_vx()
         with ThreadPoolExecutor(max_workers=max(1, len(units))) as ex:
-            results = dict(zip(units, ex.map(lambda u: zv.run_unit(u), units)))
+            results = dict(zip(units, ex.map(lambda u: zv.run_unit_portfolio(u), units)))
     except zv.Undecided as e:
         print("UNDECIDED: %s" % e)
         return 2
@@ -344,7 +344,7 @@ def main(argv):
             "checker_cmd": "; ".join(r.cmd for r in results.values() if r.cmd),
             "trusted_base": trusted_base(results),
             "back_end": "Verus %s (Z3), single-file mode, one query per function (per case-split copy for the handler loops)" % zv.verus_version(),
-            "units": {u: {"verified_functions": r.verified, "verus_errors": r.errors, "verus_ms": r.verus_ms, "smt_ms": r.smt_ms, "cache_hit": r.cached} for u, r in results.items()},
+            "units": {u: {"verified_functions": r.verified, "verus_errors": r.errors, "verus_ms": r.verus_ms, "smt_ms": r.smt_ms, "cache_hit": r.cached, "portfolio_reruns": r.portfolio, "obligations_proved_only_under_another_seed": r.unstable} for u, r in results.items()},
             "functions_under_contract": sorted(set(f.split(" [")[0] for f in fns)),
             "case_split_copies": len([f for f in fns if " [" in f]),
             "per_tag": per_tag_out,
